@@ -347,6 +347,19 @@ def part_js(sh, res):
                 c['pieces'] = [hexdata]
             batch.append(c)
             meta.append((hexdata, 'simple', None, mode + ':io'))
+    wt = [([['k', 'v']], False, False), ([['k', None]], True, False), ([[['x', None], 'v']], True, False), ([[['x', 'y'], 'v']], False, False), ([['k,m', 'v']], False, True), ([['k'], ['m,n']], False, True), ([[]], False, False)]
+    wouts = js.run_batch([{'op': 'write', 'table': t, 'encoding': 'utf-8', 'dlm': ',', 'policy': 'simple'} for t, _, _ in wt])
+    for (t, want_null, want_sep), out in zip(wt, wouts):
+        res.evaluations += 1
+        res.traces += 1
+        ws = out.get('warnings', [])
+        got_null = any('null' in w for w in ws)
+        got_sep = any('separator' in w for w in ws)
+        if 'error' in out or got_null != want_null or got_sep != want_sep:
+            res.violation('js:writer-warning-iff', {'kind': 'js-writer', 'table': t}, {'null_warning': want_null, 'separator_warning': want_sep}, out)
+        else:
+            res.feat('js_writer_warning_cases')
+            res.nontrivial += 1
     outs = js.run_batch(batch)
     for (text, pol, cm, mode), out in zip(meta, outs):
         res.evaluations += 1
